@@ -38,6 +38,10 @@ CHECKS = {
    text="TLC enumerates expression trees up to depth 2 (tensor leaves, scalar on either side, unary minus, abs, sqrt, + - * /, min, max, six comparisons, && || !) x five assignment forms x ten tensor sizes covering every residue of the vector widths x four element types, checks on every enumerated tree that it lies in the exactness domain of the L1 evaluator, and validates every recorded destination position by position against Expr!Eval / Expr!Assign under SSE2/AVX2/AVX-512. A second family (table mode) runs single operations, including 20 math functions, on integer boundary values and IEEE specials and validates lane by lane against the same scalar C++ operation recorded by plain scalar code.",
    note="Interpreted mode is exact (small-integer operands, checked per event by Expr!InDomain). Table mode trusts the scalar C++ operation as the oracle (the property's own oracle); NaN operands are excluded for min/max. round() half-to-even in the vector body is a listed known finding (D17). Complex element types are not in the plan (complex scalar*tensor evaluates to 0, see DESIGN findings).",
    technique="TLA+ L1 expression evaluator + TLC-enumerated plan + TLC trace validation of recorded results"),
+ "C09": dict(level=MC, design="3/C09",
+   text="Two layers. (L2) TLC model-checks the StagedAssign design model - a transcription of the library's staged assignment of expressions with evaluation-requiring nodes - against the L1 value over all 31k (operator, tree of depth<=2, destination kind) combinations: staging refines L1 whenever the destination is not on the right-hand side, for `Tensor = expr` and for `*=`; the full claim is violated and TLC produces the counterexamples (findings D9, D9m). (L1) TLC enumerates trees mixing element-wise + - * with %, trans, inv, adj, cof, det, trace, with and without the destination as element-wise operand, four operators, Tensor and TensorMap destinations, n in {2,3}, float/double, plus lazy product chains of length 2..5 over extents {1,2,3,5}; the recorded lazy and eager results are both validated by TLC against LazyExpr!Expected / Matmul!Product. A lazy result that equals the StagedAssign model but not L1 is recognised as the named deviation (known finding); any other wrong result is a violation.",
+   note="Exact integer data (unimodular operands for inv; n<=3). /=, norm and lu-based solve are not in this plan (C16/C12 cover norm and solve). Forms that do not compile in any configuration (TensorMap destination with %, inv, adj, cof; += of a sum whose right operand is inv/adj/cof or scalar*tensor) are excluded as not offered.",
+   technique="TLA+ L1 spec + L2 design model checked by TLC + TLC-enumerated plan + TLC trace validation"),
 }
 NA_REASON = "check not built yet (work in progress in this session; see DESIGN.md section 3 for the planned model)"
 
